@@ -355,3 +355,46 @@ V("C20", "twin-excl-flag-guard-with-trunc", "mdtraj/formats/amberrst.py",
             self._handle = os.fdopen(os.open(filename, flags, 0o666), mode)""", None)
 V("C03", "twin-slice-key-asarray-no-dtype", "mdtraj/core/trajectory.py", "        xyz = self.xyz[key]\n        time = self.time[key]",
   "        if isinstance(key, (list, tuple)):\n            key = np.asarray(key)\n        xyz = self.xyz[key]\n        time = self.time[key]", None)
+
+# ---------------------------------------------------------------- C12
+S = "mdtraj/core/selection.py"
+V("C12", "infix-per-spelling-sorted-again", S, """            levels = {}
+            for kw, op in klass.keyword_aliases.items():
+                levels.setdefault(id(op), []).append(kw)
+            return [
+                (MatchFirst([PPLiteral(kw) for kw in kws]), klass.n_terms, getattr(opAssoc, klass.assoc), klass)
+                for kws in levels.values()
+            ]""", """            kws = sorted(klass.keyword_aliases.keys())
+            return [(kw, klass.n_terms, getattr(opAssoc, klass.assoc), klass) for kw in kws]""", "C12-R3")
+V("C12", "and-listed-before-comparisons", S, """        (["<", "lt"], ast.Lt()),
+        (["==", "eq"], ast.Eq()),
+        (["<=", "le"], ast.LtE()),
+        (["!=", "ne"], ast.NotEq()),
+        ([">=", "ge"], ast.GtE()),
+        ([">", "gt"], ast.Gt()),
+        (["and", "&&"], ast.And()),""", """        (["and", "&&"], ast.And()),
+        (["<", "lt"], ast.Lt()),
+        (["==", "eq"], ast.Eq()),
+        (["<=", "le"], ast.LtE()),
+        (["!=", "ne"], ast.NotEq()),
+        ([">=", "ge"], ast.GtE()),
+        ([">", "gt"], ast.Gt()),""", "C12-R3")
+V("C12", "lt-maps-to-LtE", S, '(["<", "lt"], ast.Lt()),', '(["<", "lt"], ast.LtE()),', "C12-R2")
+V("C12", "ge-spelling-split", S, '([">=", "ge"], ast.GtE()),\n        ([">", "gt"], ast.Gt()),', '([">="], ast.GtE()),\n        ([">", "gt", "ge"], ast.Gt()),', "C12-R2")
+V("C12", "resid-maps-to-resSeq", S, '(("resid", "resi"), _chain("residue", "index")),', '(("resid", "resi"), _chain("residue", "resSeq")),', "C12-R1")
+V("C12", "waters-synonym-dropped", S, '(("water", "waters", "is_water"), _chain("residue", "is_water")),', '(("water", "is_water"), _chain("residue", "is_water")),', "C12-R1")
+V("C12", "chainid-maps-to-chain-id-string", S, '(("chainid",), _chain("residue", "chain", "index")),', '(("chainid",), _chain("residue", "chain", "chain_id")),', "C12-R1")
+V("C12", "parseAll-false", S, "self.expression.parseString(selection, parseAll=True)", "self.expression.parseString(selection, parseAll=False)", "C12-R6")
+V("C12", "range-upper-exclusive", S, "            ops=[ast.LtE(), ast.LtE()],", "            ops=[ast.LtE(), ast.Lt()],", "C12-R4")
+V("C12", "range-bounds-swapped", S, "            left=self._from.ast(),\n            ops=[ast.LtE(), ast.LtE()],\n            comparators=[self._field.ast(), self._to.ast()],",
+  "            left=self._to.ast(),\n            ops=[ast.LtE(), ast.LtE()],\n            comparators=[self._field.ast(), self._from.ast()],", "C12-R4")
+V("C12", "regex-args-swapped", S, "                args=[pattern, string],", "                args=[string, pattern],", "C12-R2")
+V("C12", "regex-search-instead-of-match", S, '                    attr="match",', '                    attr="search",', "C12-R2")
+V("C12", "literal-check-dropped", S, """            if all(isinstance(c, Literal) for c in self.comparators):
+                raise ValueError("Cannot compare literals.")""", """            if all(isinstance(c, Literal) for c in self.comparators):
+                pass""", "C12-R6")
+V("C12", "operators-not-excluded-from-literals", S, "        literal = ~(keywords(BinaryInfixOperand) | keywords(UnaryInfixOperand)) + (", "        literal = ~(keywords(UnaryInfixOperand)) + (", "C12-R7")
+V("C12", "select-negated-filter", "mdtraj/core/topology.py", "indices = np.array([a.index for a in self.atoms if filter_func(a)])", "indices = np.array([a.index for a in self.atoms if not filter_func(a)])", "C12-R5")
+V("C12", "select-expression-other-string", "mdtraj/core/topology.py", "        condition = parse_selection(selection_string).source", "        condition = parse_selection(selection_string.lower()).source", "C12-R5")
+V("C12", "twin-aliases-reordered", S, '(("water", "waters", "is_water"), _chain("residue", "is_water")),', '(("is_water", "water", "waters"), _chain("residue", "is_water")),', None)
+V("C12", "twin-comparisons-reordered", S, '        (["<", "lt"], ast.Lt()),\n        (["==", "eq"], ast.Eq()),', '        (["eq", "=="], ast.Eq()),\n        (["lt", "<"], ast.Lt()),', None)
